@@ -98,6 +98,8 @@ typedef struct {
 	uint8_t stall_dst;	/* 255 none; else this thread blocks in a callback while ... */
 	uint16_t burst;		/* ... an external sender issues `burst` sends to it (queue-full) */
 	uint8_t burst_flags;
+	uint8_t nested_sync;	/* the callback of the first burst message (running on the released thread, its batch half read) issues a
+				 * synchronous broadcast TP_BMSG_F_SYNC | TP_BMSG_F_SELF_SKIP to the other threads before it returns */
 	uint16_t late_burst;	/* after everything else was delivered: thread late_dst is stalled in a callback, tp_shutdown() is called,
 				 * then `late_burst` plain sends are issued to it (accepted: it is still running), then it is released */
 	uint8_t late_dst;
@@ -225,6 +227,7 @@ typedef struct {
 	int64_t v_sec, v_nsec, i_sec, i_nsec;	/* last timerfd_settime argument */
 	uint32_t live_fds;			/* library-owned descriptors after the op */
 	uint64_t tpdata;			/* tp_udata.tpdata after the op */
+	int32_t rcvlowat;			/* SO_RCVLOWAT of the harness socket after the op (reset to 1 before every case) */
 } c06a_opres;
 typedef struct {
 	int setup_rc;
@@ -431,13 +434,16 @@ uint8_t c16f_file_pattern(uint64_t pos);
 /* phase scripts on one receive task: silent partial progress, restart with a new window, pause on a timeout / data report, re-enable */
 #define C16S_MAX_STEPS 12
 #define C16S_LOG 160
-enum { S_WRITE = 1 /* a bytes from the peer */, S_WAIT_TIMEOUT, S_RESTART /* owner: tp_task_stop + new window (a = offset, b = length) + tp_task_start */, S_ENABLE /* owner: tp_task_enable(1) if paused */, S_SLEEP /* a ms */ };
+enum { S_WRITE = 1 /* a bytes from the peer */, S_WAIT_TIMEOUT, S_RESTART /* owner: tp_task_stop + new window (a = offset, b = length) + tp_task_start */, S_ENABLE /* owner: tp_task_enable(1) if paused */, S_SLEEP /* a ms */,
+	S_STOP_RESTART /* owner: tp_task_stop + tp_task_restart(): same buffer, the unreported count is kept */ };
 typedef struct { uint8_t op; uint16_t a, b; } c16s_step;
 typedef struct {
 	uint8_t ev_flags;	/* 0 persistent, 2 dispatch */
 	uint8_t after_every_read;
 	uint8_t on_timeout;	/* answer to ETIMEDOUT: 0 CONTINUE, 1 NONE (the task stays paused until tp_task_enable(1) / a restart) */
 	uint8_t pause_data_k;	/* dispatch only: the k-th data report is answered with NONE (0 never) */
+	uint8_t setup_mode;	/* 0: tp_task_create() gets everything; 1: created as a bare notify task without descriptor / flags / user pointer and
+				 * configured through the accessors (tp_task_ident_set, tp_task_tp_cb_func_set, tp_task_flags_add, tp_task_udata_set) before the start */
 	uint16_t timeout_ms, buf_size, win_off, win_len;
 	uint8_t nsteps;
 	c16s_step steps[C16S_MAX_STEPS];
@@ -457,6 +463,8 @@ typedef struct {
 } c16s_rec;
 typedef struct {
 	int setup_rc, start_rc, hang, never_reported, guards_bad, log_overflow, foreign_thread;
+	int bad_udata;		/* a callback got a user pointer other than the one the task was given */
+	int accessor_mismatch;	/* a getter did not return what the matching setter had stored */
 	uint32_t nlog;
 	c16s_rec log[C16S_LOG];
 	tp_res_stats res;
